@@ -549,14 +549,34 @@ impl<'a> Gen<'a> {
                 let mut bytes = self.make_document(ver, Some(ms)).into_bytes();
                 let mut lenient = self.permille(300);
                 if self.permille(self.prof.load_fault_permille) && !bytes.is_empty() {
-                    match self.rng.below(3) {
+                    match self.rng.below(5) {
                         0 => {
                             let k = self.rng.below(bytes.len());
                             bytes.truncate(k);
                         }
                         1 => {
                             let k = self.rng.below(bytes.len());
-                            bytes[k] = self.rng.pick(&[b'<', b'>', b'&', b'"', b'/', b' ', b'X', 0xff, 0]);
+                            bytes[k] = self.rng.pick(&[b'<', b'>', b'&', b'"', b'/', b' ', b'X', 0xff, 0, b'?', b'!', b'-', b'=', b';', b'#', b'\n', b'\t', b'\'']);
+                        }
+                        2 => {
+                            // a byte lost or doubled
+                            let k = self.rng.below(bytes.len());
+                            if self.permille(500) {
+                                bytes.remove(k);
+                            } else {
+                                let b = bytes[k];
+                                bytes.insert(k, b);
+                            }
+                        }
+                        3 => {
+                            // a quoted value (or what lies between two quotes) blanked
+                            let quotes: Vec<usize> = bytes.iter().enumerate().filter(|(_, b)| **b == b'"').map(|(i, _)| i).collect();
+                            if quotes.len() >= 2 {
+                                let qi = self.rng.below(quotes.len() - 1);
+                                for b in bytes[quotes[qi] + 1..quotes[qi + 1]].iter_mut() {
+                                    *b = b' ';
+                                }
+                            }
                         }
                         _ => {
                             // a recoverable defect: the document still loads leniently, with warnings, into an odd model
